@@ -303,6 +303,9 @@ class Interp:
                 return SInt(-TInt.unwrap(v))
             if not S.is_sym(v):
                 return -v
+        if isinstance(node.op, ast.Invert) and isinstance(v, (SInt, int)) \
+                and not isinstance(v, bool):
+            return SInt(-TInt.unwrap(v) - 1) if S.is_sym(v) else ~v
         if isinstance(node.op, ast.UAdd):
             if isinstance(v, (SInt, SReal)) or not S.is_sym(v):
                 return v if S.is_sym(v) else +v
@@ -627,6 +630,25 @@ class Interp:
                                  else fl(x - q * y))
                 raise Unsupported('real %s' % op)
             x, y = TInt.unwrap(a), TInt.unwrap(b)
+            if op in ('BitAnd', 'BitOr', 'BitXor', 'LShift', 'RShift') \
+                    and TReal not in (ta, tb):
+                # two's-complement operations on unbounded integers are
+                # uninterpreted (operator and operand order are decided; the
+                # values are cross-checked natively); a negative shift count
+                # raises ValueError
+                if op in ('LShift', 'RShift') and not self.spec and \
+                        self.branch(y < 0):
+                    self.raise_('ValueError', 'negative shift count',
+                                node=node)
+                f = z3.Function('int.' + op, z3.IntSort(), z3.IntSort(),
+                                z3.IntSort())
+                return SInt(f(x, y))
+            if op == 'Pow' and TReal not in (ta, tb):
+                f = z3.Function('int.Pow', z3.IntSort(), z3.IntSort(),
+                                z3.IntSort())
+                if not self.spec and self.branch(y < 0):
+                    raise Unsupported('int ** negative int (a float)')
+                return SInt(f(x, y))
             if op == 'Add':
                 return SInt(x + y)
             if op == 'Sub':
